@@ -78,6 +78,12 @@ def run_case(case):
                 calls.append(("ac", ai, "clear_quick_timer", (ty,)))
                 for h, m in ((0, 0), (23, 59), (12, 30), (7, 5)):
                     calls.append(("ac", ai, "set_quick_timer_time", (ty, h, m)))
+                # times that carry seconds, a UTC offset or the fold flag: the wall-clock hour
+                # and minute are what is requested
+                for h, m, extra in ((21, 30, (0, 0, 600, 0)), (0, 5, (59, 999999, -300, 0)),
+                                    (23, 59, (0, 0, 0, 0)), (2, 30, (0, 0, None, 1)),
+                                    (12, 0, (0, 0, 765, 1))):
+                    calls.append(("ac", ai, "set_quick_timer_time", (ty, h, m, extra)))
                 for secs in (0, 59, 60, 3600, 5400, 86340, 86400, 100000, 172800):
                     calls.append(("ac", ai, "set_quick_timer_duration", (ty, secs)))
             ab = inst["acs"][ai]["ability"]
